@@ -1,9 +1,10 @@
-\* C06 quick: exhaustive, every state is dumped and replayed into the real collector
+\* C06 quick: exhaustive; every state is dumped and replayed into the real collector
 SPECIFICATION Spec
 CONSTANTS
   Sorts <- SortsQuick
   Sizes = {0, 1, 2}
   Skips = {0, 1, 2}
+  Totals = {}
   AfterSizes = {2}
   ReqModes = {"page", "after", "before"}
   MaxN = 4
@@ -17,6 +18,6 @@ CONSTANTS
   HeapThreshold = 10
   PageSizes = {1}
 INVARIANTS
-  CmpIsOrder RevIsReverse TotalIsAll MaxScoreIsMax StoreIsTopK SliceIsSorted HeapIsHeap
+  SortAllIsRank CmpIsOrder RevIsReverse TotalIsAll MaxScoreIsMax StoreIsTopK SliceIsSorted HeapIsHeap
   LowestIsBestEvicted ResultsArePage HitsAreMeaning FromAHit
 CHECK_DEADLOCK FALSE
